@@ -4,8 +4,10 @@ import WcModel.Proofs.GlobDeep
   there — for every tree and every part list, under the hypotheses that exclude the known
   defects and nothing else:
 
-  * `SegAgree` — the per-part matcher (`re.match`) and the segment language (full match)
-    agree on the names the tree offers (false only for names ending in a newline: D14);
+  * `SegAgree` — the per-part matcher and the segment language (full match) agree on the
+    names the tree offers.  Since the D14 repair (`fullmatch` instead of `re.match`, which
+    accepted `name + "\n"`) this is a THEOREM, `segAgree_all`, for every tree and part list;
+    the hypothesis is kept in the lemmas below so that they do not depend on that fact;
   * the walk starts in a directory (false for `f/.`-style patterns: D17);
   * `WFParts` — only the last part may lack `dir_only` (true of every `_GlobSplit` output);
   * no FOLLOW / `***`, fuel above the tree height (then the fuel is immaterial, C06).
@@ -22,6 +24,14 @@ def WFParts : List GPart → Prop
 def SegAgree (fs : FS) (w : WalkCfg) (parts : List GPart) : Prop :=
   ∀ p ∈ parts, ∀ (d : Dir) (o : Offer), o ∈ offered fs d →
     (getMatcher w.caseSensitive (some p.pat)).test o.name = segOK w.caseSensitive p.pat o.name
+
+/-- **since the D14 repair `SegAgree` holds for every tree, configuration and part list**: the
+    walker applies a compiled part with `fullmatch`, which is the segment language itself -/
+theorem segAgree_all (fs : FS) (w : WalkCfg) (parts : List GPart) : SegAgree fs w parts := by
+  intro p _ d o _
+  cases p.pat with
+  | lit s => rfl
+  | re src r => rfl
 
 theorem FS.locIsDir_iff {fs : FS} {l : Loc} : fs.locIsDir l = true ↔ ∃ ds, fs.scandir l = some ds := by
   unfold FS.locIsDir FS.scandir
